@@ -516,8 +516,11 @@ def instantiate(E, s, cref, args, kwargs):
                     raise Unsupported("dataclass field()")
             else:
                 attrs[n] = E.eval_default(s, FuncRef(c.module, c.name + ".<class>", None, c), dflt)
+        attrs["__complete__"] = True
         return ok(s, s.alloc(ObjCell(cref, attrs)))
-    ref = s.alloc(ObjCell(cref, {}))
+    # an object whose __init__ is executed by the engine has exactly the attributes the code
+    # gave it; objects built by a model (make_context, ...) are partial
+    ref = s.alloc(ObjCell(cref, {"__complete__": True}))
     init = E_class_lookup(E, cref, "__init__")
     if init is None:
         if args or kwargs:
@@ -535,6 +538,12 @@ def getattr_value(E, s, v, attr, missing_ok=False):
     if r is None:
         if missing_ok:
             return None
+        if isinstance(v, Ref) and isinstance(s.cell(v), ObjCell) and not s.cell(v).attrs.get("__complete__"):
+            # the object comes from a model that does not have this attribute: that says nothing
+            # about the real object
+            c = s.cell(v)
+            raise Unsupported(f"attribute .{attr} of a partially modelled "
+                              f"{c.cls if isinstance(c.cls, str) else getattr(c.cls, 'name', 'object')} is not modelled")
         return E.raise_(s, "AttributeError", f"{attr}")
     return r
 
@@ -612,7 +621,10 @@ def _getattr(E, s, v, attr):
     if isinstance(v, SKind):
         if attr in ("upper", "lower"):
             # the case-mapped spelling of a kind name: an unknown string (over-approximation)
-            return ok(s, method(f"kind.{attr}", lambda E_, s_, a, k: ok(s_, SStr(z3.String(fresh_name("kind_" + attr))))))
+            def kind_case(E_, s_, a, k):
+                s_.notes.append(f"str.{attr} on a kind name is over-approximated by an arbitrary string")
+                return ok(s_, SStr(z3.String(fresh_name("kind_" + attr))))
+            return ok(s, method(f"kind.{attr}", kind_case))
         if attr == "startswith":
             raise Unsupported(f"str.{attr} on a kind string")
         return None
